@@ -5,8 +5,8 @@
 //            impl_cache!{is_dirty, set_rev, rev}, RevertiblePoolBuffer::{start_revertible_operation, commit_to_storage, pool, pool_mut},
 //            RevertibleBuffer::{clocks, clocks_mut, other, other_mut, rev, start_revertible_operation}
 //      programs/store/src/states/market/pool.rs              :: PoolStorage::{pool, pool_mut}
-//      NOT covered: RevertibleBuffer::{pool, pool_mut} (enum-keyed pool table) and RevertibleBuffer::commit_to_storage
-//      (loop over PoolKind::iter(), event emission).
+//      RevertibleBuffer::{pool, pool_mut, commit_to_storage} (enum-keyed pool table): verus/C21_market.rs
+//      (loop over PoolKind::iter(); the event emission is cut).
 // =================================================================================================
 verus! {
 /// payloads: arbitrary data (the code only copies them)
